@@ -81,7 +81,8 @@ def run_tlc(module, cfg_text, wd, name, workers=8, timeout=1800, env=None, extra
     e["JAVA_TOOL_OPTIONS"] = jopts
     if env:
         e.update(env)
-    cmd = ["timeout", str(timeout), "java", "-XX:+UseParallelGC", "-Xss1g", "-Xmx" + heap, "-cp", TLC_JAR, "tlc2.TLC",
+    cmd = ["timeout", str(timeout), "java", "-XX:+UseParallelGC", "-Xss1g", "-Xmx" + heap,
+           "-Dfile.encoding=UTF-8", "-Dstdout.encoding=UTF-8", "-Dsun.stdout.encoding=UTF-8", "-cp", TLC_JAR, "tlc2.TLC",
            "-workers", str(workers), "-metadir", meta, "-cleanup", "-noGenerateSpecTE", "-config", cfg]
     if coverage:
         # NB: -coverage disables TLC's caching of LET definitions (10x slower on the fact tables)
@@ -101,7 +102,7 @@ def run_tlc(module, cfg_text, wd, name, workers=8, timeout=1800, env=None, extra
     if p.returncode == 124:
         raise ToolError("TLC timed out on %s after %ds" % (module, timeout))
     err_lines = []
-    with open(out) as fi:
+    with open(out, encoding="utf-8", errors="replace") as fi:
         in_err = False
         for line in fi:
             if line.startswith('"{') or line.startswith('"['):
